@@ -10,3 +10,4 @@ import TlxVerif.Props.C07
 #print axioms TlxVerif.C07.sliceChunk_eq
 #print axioms TlxVerif.C07.equallySplit_zero_witness
 #print axioms TlxVerif.C07.merge_phase_all_schedules
+#print axioms TlxVerif.C07.model_splitters_nondecreasing
